@@ -1282,7 +1282,7 @@ def reconfigured_subproject_items(rules=("TSLACK",)):
     sp = {"tasks": [{"name": "T0", "work": 1.0}, {"name": "S1", "work": dur, "sub": {"file_path": path, "auto": False}}, {"name": "T2", "work": 2.0}, {"name": "T3", "work": 3.0}],
           "links": [[0, 1, "FS"], [1, 2, "FS"]],
           "teams": [{"name": "TM0", "targets": [0, 1, 2, 3], "workers": [{"name": "W0", "skills": {"T0": 1.0, "S1": 1.0, "T2": 1.0}, "cost": 1.0}, {"name": "W1", "skills": {"T3": 1.0, "S1": 1.0}, "cost": 2.0}]}],
-          "subproject_setup": True, "label": "worked-subproject-reconfigured"}
+          "subproject_setup": "shared-file", "label": "worked-subproject-reconfigured"}
     out = []
     for k in (1, 2, 3, 4, 5):
         out.append((sp, {"rule": rules[0], "resume_from": k, "pause_reconfigure": True, "max_time": 24}))
